@@ -227,7 +227,10 @@ func RunImpl(src string, cfg *Config) *ImplRun {
 	}
 	var fn *lua.LFunction
 	var err error
-	if cfg.FileHeader != "" {
+	if cfg.FileHeader != "" && cfg.FileHeader[0] != '#' {
+		// a plain first line (a comment): same loader, the text just starts later
+		fn, err = L.Load(strings.NewReader(cfg.FileHeader+src), "<string>")
+	} else if cfg.FileHeader != "" {
 		if werr := os.WriteFile("<string>", []byte(cfg.FileHeader+src), 0o644); werr != nil {
 			panic("lrun: cannot write the program file: " + werr.Error())
 		}
